@@ -548,6 +548,19 @@ def r5(fx):
         yield ob(f'encoding number {k} is written as the character-set line', len(lines) > 2 and lines[2] == str(k), fn, got=lines[:3], want=str(k))
     got = _epc(fx, it, name='n' * 70, iban='i' * 34, text='t' * 140, bic='b' * 11, purpose='pppp', amount='999999999.99')
     yield ob('maximal fields fit the 331-byte limit', isinstance(got, bytes) and len(got) <= 331, fn, got=len(got) if isinstance(got, bytes) else got, want='<= 331')
+    # the amount line is numerically the amount given, for every cent value given as float, string, Decimal or int
+    bad = []
+    for cents in list(range(1, 301)) + [999, 1000, 1001, 12345, 99999999999, 5000000000]:
+        d = decimal.Decimal(cents) / 100
+        forms = [float(d), str(d), d] + ([cents // 100] if cents % 100 == 0 else [])
+        for a in forms:
+            got = _epc(fx, it, amount=a)
+            line = got.decode('latin1').split('\n')[7] if isinstance(got, bytes) else got
+            m_ = __import__('re').fullmatch(r'EUR(\d+(?:\.\d{1,2})?)', line)
+            if not m_ or decimal.Decimal(m_.group(1)) != d:
+                bad.append((a, line))
+    yield ob('amount line EUR#.## is numerically the amount given (cent values 0.01..3.00 and some larger ones, as float / str / Decimal / int)', not bad, fn,
+             got=bad[:4], want=[])
     got = _epc(fx, it, name='\u00e4' * 70, iban='i' * 34, text='\u20ac' * 140, bic='b' * 11, purpose='pppp', amount='999999999.99', encoding=1)
     yield ob('331-byte guard: fields within their character limits whose UTF-8 form exceeds 331 bytes are refused', got == VE, fn,
              got=got if isinstance(got, str) else f'payload of {len(got)} bytes', want=VE)
